@@ -219,6 +219,7 @@ def handle : Handler := fun cas obs =>
   match cas, obs with
   -- the System slice (Driver/Sys.lean): the literal `sys` cannot be a hex-encoded appender list
   | "sys" :: rest, obs => Driver.Sys.handle rest obs
+  | "sys2" :: rest, obs => Driver.Sys.handle2 rest obs
   | [apps, rootLevel, rootRefs, loggers, probes], [implObs] =>
     handleWith none apps rootLevel rootRefs loggers probes implObs none
   | [apps, rootLevel, rootRefs, loggers, probes, failing], [implObs] =>
